@@ -11,6 +11,7 @@ import (
 	"sync"
 	"testing"
 	"time"
+	"unicode/utf8"
 
 	"github.com/gorilla/mux"
 	gws "github.com/gorilla/websocket"
@@ -231,7 +232,7 @@ func runDuplex(c DuplexCase) *failure {
 			break
 		}
 		if gotKey(g) != pktKey(p) {
-			f = &failure{"C01/duplex/read-disturbed-by-concurrent-write", fmt.Sprintf("incoming packet %d of %d (type %#x, body %d bytes) decoded as type %#x with %d payload bytes", i, len(c.In), p.Type, len(p.body()), byte(g.PacketType), len(g.Payload))}
+			f = &failure{"C01/duplex/read-disturbed-by-concurrent-write", fmt.Sprintf("incoming packet %d of %d (type %#x, body %d bytes) decoded as type %#x with %d payload bytes; got %.300q want %.300q", i, len(c.In), p.Type, len(p.body()), byte(g.PacketType), len(g.Payload), gotKey(g), pktKey(p))}
 			break
 		}
 	}
@@ -280,7 +281,12 @@ func TestDuplexProcessor(t *testing.T) {
 				}
 			}
 			if p.Cmd != nil && len(p.Cmd.CommandBody) > 64 {
-				p.Cmd.CommandBody = p.Cmd.CommandBody[:60]
+				// cut on a rune boundary: command strings travel as JSON, which carries valid UTF-8 only
+				cut := 60
+				for cut > 0 && !utf8.RuneStart(p.Cmd.CommandBody[cut]) {
+					cut--
+				}
+				p.Cmd.CommandBody = p.Cmd.CommandBody[:cut]
 			}
 			c.In = append(c.In, p)
 		}
